@@ -3,7 +3,7 @@
 From Coq Require Import List ZArith Bool Permutation.
 From PV Require Import lib.Sx lib.Result model.Store model.Iso
      spec.SpecIso proofs.StoreFacts proofs.DeepcopyFacts proofs.IsoFacts proofs.RegionFacts proofs.OracleFacts
-     proofs.IsoExamples model.HeapProg proofs.HeapProgFacts proofs.HeapProgHist.
+     proofs.IsoExamples model.HeapProg proofs.HeapProgFacts proofs.HeapProgInst proofs.HeapProgHist.
 Import ListNotations.
 
 (* deepcopy: everything that existed stays as it is, the copy lives in fresh locations and points only into itself
@@ -271,7 +271,7 @@ Proof. exact prog_preserves_snapshots. Qed.
 Print Assumptions C09_heap_program_preserves_snapshots.
 
 (* the proof obligation of pycaption's eight writers: their heap programs are accepted *)
-Theorem C09_writer_programs_owned : forall k, exists a', check (prog_of k) [] = Some a'.
+Theorem C09_writer_programs_owned : forall reset k, exists a', check (prog_with reset k) [] = Some a'.
 Proof. exact writers_owned. Qed.
 Print Assumptions C09_writer_programs_owned.
 
@@ -314,3 +314,52 @@ Example C09_example_programs_assign_on_their_copy :
    map (fun k => wr_fp (writeP fixed k dflt_opts winst0 (w_st w1) s)) [W_DFXP; W_SAMI]
      = [[(KCaption, 5%Z)]; [(KCaption, 5%Z)]]).
 Proof. exact writers_assign_on_their_copy. Qed.
+
+(* ---- half 2 on the heap programs: the writer's INSTANCE state (open_span, last_time, global_layout = registers that
+   survive a write() on the same object).  The programs contain the rendering state machines (span open / close, SAMI blank
+   sync) and emit tokens; `du` is a static "assigned before it is read" analysis. ---- *)
+
+(* soundness of the analysis for EVERY program: two runs from states that differ only in registers the analysis knows to be
+   assigned before they are read exit the same way, with the same store, tokens, footprint, copy count *)
+Theorem C09_assigned_before_read_sound : forall o c u u' h1 h2 h1' h2' x1 x2,
+  du c u = Some u' -> same_heap h1 h2 -> agree u (h_env h1) (h_env h2) ->
+  exec o c h1 = (h1', x1) -> exec o c h2 = (h2', x2) ->
+  x1 = x2 /\ same_heap h1' h2' /\ (x1 = None -> agree u' (h_env h1') (h_env h2')).
+Proof. exact du_sound. Qed.
+Print Assumptions C09_assigned_before_read_sound.
+
+(* the obligation of the eight writers (repaired code): every instance register is assigned before it is read *)
+Theorem C09_writer_programs_reset_instance_state : forall k, exists u', du (prog_of k) inst_regs = Some u'.
+Proof. exact writers_reset_instance_state. Qed.
+Print Assumptions C09_writer_programs_reset_instance_state.
+
+(* hence, for every writer kind, options, store, argument: same object again = a fresh object = an object that wrote other
+   sets or raised - store effect, result (tokens or exception), footprint, copy count.  Unlike C09_write_instance_independent
+   this is about programs in which the instance state CAN reach the output *)
+Theorem C09_program_write_instance_independent : forall c k o i1 i2 st s,
+  fix15 c = true ->
+  let r1 := writeP c k o i1 st s in
+  let r2 := writeP c k o i2 st s in
+  wr_store r1 = wr_store r2 /\ wr_result r1 = wr_result r2 /\ wr_fp r1 = wr_fp r2 /\ wr_copies r1 = wr_copies r2.
+Proof. exact writeP_instance_independent. Qed.
+Print Assumptions C09_program_write_instance_independent.
+
+(* without the reset line the span writers (and WebVTT without its global_layout assignment) are REJECTED by the analysis,
+   and the history of defect 15 shows the leak on the programs; with it the reused object emits what a fresh one emits *)
+Theorem C09_missing_reset_refuted :
+  forallb (fun k => rejects_du (prog_with false k)) span_kinds = true /\
+  rejects_du prog_vtt_no_global = true /\
+  forallb (fun k => let r := runP (mkCfg true true false) world0 (hist15 k) in
+                    negb (zl_eqb (tokens_of r 4) (tokens_of r 5))) span_kinds = true /\
+  forallb (fun k => let r := runP fixed world0 (hist15 k) in
+                    zl_eqb (tokens_of r 4) (tokens_of r 5) && zl_eqb (tokens_of r 4) (tokens_of r 2)) span_kinds = true.
+Proof. exact missing_reset_rejected_and_wrong. Qed.
+Print Assumptions C09_missing_reset_refuted.
+
+Example C09_example_programs_render_like_the_store_model :
+  forallb (fun k => forallb (fun c =>
+     forallb (fun p => zl_eqb (mo_tokens (fst (fst p))) (mo_tokens (fst (snd p)))
+                       && Bool.eqb (mo_open (fst (fst p))) (mo_open (fst (snd p))))
+             (combine (run c world0 (hist15 k)) (runP c world0 (hist15 k))))
+     [fixed; mkCfg true true false]) span_kinds = true.
+Proof. exact programs_render_like_the_store_model. Qed.
